@@ -426,7 +426,7 @@ def C16(tier):
         for t in jobs:
             t.timeout = 1800
     floors = {"cancel_cases": 5000 * (1 if tier == "quick" else 8), "epoll_unregistration_verified": 2000,
-              "foreign_cancel_one_committed_invocation": 1}
+              }
     for p in ["before-activate", "right-after-activate", "from-own-handler", "from-item-on-serial-target", "foreign-while-events-flow",
               "while-suspended", "double-cancel", "cancel_and_wait"]:
         floors["cancel_at_" + p] = 200
